@@ -24,10 +24,9 @@ StripDQ(b) == StripR(StripL(b))
 Msg(r) == IF r.text.e = "none" THEN <<>> ELSE r.text.v
 RefStatus(r) == [devs |-> {}, kind |-> Kind(r), code |-> r.code, msg |-> Msg(r), leftover |-> FALSE]
 
-\* the error parser only understands  [ "(" atom ")" ] SP quoted-non-empty   and a bare literal
-BadErr(r) == /\ r.st = "NO"
-             /\ ~(r.code = <<>> /\ r.text.e \in {"none", "l"})
-             /\ (r.cargs # <<>> \/ r.text.e # "q" \/ r.text.v = <<>>)
+\* the error parser reads  [ "(" code *(SP quoted) ")" ] [ SP (quoted / literal) ]  but a response-code argument
+\* sent as a *literal* ends the line inside the parentheses: that is still refused (Dev_BadErrorMessage)
+BadErr(r) == r.st = "NO" /\ \E i \in 1..Len(r.cargs) : r.cargs[i].e = "l"
 
 DevStatus(r) ==
   (IF "Dev_BadErrorMessage" \in EnabledDevs /\ BadErr(r)
